@@ -104,7 +104,8 @@ RECIPES = {
         level="exploration",
         monitors={"C16"},
         mc=[],
-        runs=[dict(cmd="run", gen=MIX + ",drain:40", policy="always_flush")],
+        runs=[dict(cmd="run", gen=MIX + ",drain:40", policy="always_flush"),
+              dict(cmd="run", gen="small:20,drain:20,gc-heavy:6,persist:10", policy="do_nothing,on_delay_long_flush,on_delay_0_fsync,always_fsync")],
         rule="after every call: names+payload <= memory_used <= names+payload+64*records, used <= allocated, truncate "
              "releases at least the evicted payload, names-only baseline when empty; non-trivial = calls executed",
         nontrivial_stat="calls",
@@ -181,6 +182,9 @@ RECIPES = {
                    opts={"classes": "payload,crc,hdr,noise", "noise": "300"},
                    opts_thorough={"classes": "payload,crc,hdr,noise", "noise": "1500", "thorough": True}, thorough_factor=8),
               dict(cmd="damage", gen="embed:12", policy="always_flush", opts={"classes": "embed,hdr"}),
+              # every frame payload size 0..720 and the sizes around powers of two: payload / checksum damage only
+              dict(cmd="damage", gen="sizes:9", policy="always_flush", opts={"classes": "payload,crc"}, thorough_factor=1,
+                   opts_thorough={"classes": "payload,crc,hdr", "thorough": True}),
               # damage after crash recovery: the dangling head of a torn multi-frame append, completed by an append
               # of exactly the missing size, whose frame is then retyped Full -> Last at rest
               dict(cmd="run", gen="big:8,batch:12,aim-batch:8,aim-block:8", policy="always_flush",
